@@ -281,7 +281,8 @@ class Check:
         out_dir = ROOT / "replays" / self.prop
         found_real = [v for v in self.violations if v["found_input"]]
         # broken obligations / correspondences without a concrete failing input
-        if not found_real:
+        # (reported even when a concrete failing input was found elsewhere: another mechanism may be broken too)
+        if True:
             for b in self.broken_obligations:
                 self.violations.append({"signature": f"{self.prop}:obligation:{b}", "what": f"proof obligation no longer checks: {b}",
                                         "replay": {"theorem": b, "build_log_tail": self.build_log[-3000:]}, "found_input": False})
@@ -366,6 +367,8 @@ def main(argv=None) -> int:
         if a.replay:
             return mod.replay(chk, json.loads((ROOT / a.replay).read_text()) if not os.path.isabs(a.replay)
                               else json.loads(Path(a.replay).read_text()))
+        if hasattr(mod, "prepare"):
+            mod.prepare(chk)   # e.g. regenerate SV/Generated tables from /repo before the build
         ok = chk.build(getattr(mod, "EXTRA_TARGETS", ()))
         if ok:
             chk.audit()
